@@ -57,6 +57,15 @@ CHECKS = {
  "C29": ("exploration", "run-time monitor over generated programs naming the internal graph in every position x 12 non-admin identities: _internal dump, canary scan of every returned row, switched_kg and session binding",
          "held on every generated program/identity of the run: _internal unchanged, no canary or password hash returned, never switched or bound to _internal",
          "trusted: canaries planted in _internal + stored password hashes identify data read from it", "3/C29"),
+ "C04": ("exploration", "metamorphic run-time monitor: clause permutations / duplicated clauses / used engines / registration orders vs the canonical run",
+         "held on every generated program of the run: all permutations (<=5 clauses, 24 sampled beyond) and a duplicated clause give the canonical answer; an engine that evaluated 1-6 other programs answers like a fresh one and its base facts are untouched; persistent rules registered in two orders (and reloaded) answer alike",
+         "trusted: canonical order on a fresh engine as reference (C01 ties it to the least model)", "3/C04"),
+ "C05": ("exploration", "differential run-time monitor: executor on the unrewritten plan vs executor on the plan after each rewrite pass and after the pipeline",
+         "held on every plan the real IRBuilder produced for the generated programs of the run: optimize, plan_joins, specialize and their pipeline leave the executed result unchanged",
+         "trusted: the crate's executor on the unrewritten plan as denotation; plans come from IRBuilder only (no synthetic plan generator yet)", "3/C05"),
+ "C06": ("exploration", "differential run-time monitor: aggregate queries under all 32 optimizer settings vs independent reference aggregate semantics",
+         "held on every generated aggregate query of the run under each of the 32 configurations: groups and values equal the reference evaluator's (avg within 1e-9)",
+         "trusted: the reference evaluator's aggregate semantics (one contribution per distinct valuation of all body variables)", "3/C06"),
 }
 NOT_YET = "monitor not built yet in this round (design in DESIGN.md section 3); not claimed until a check exists"
 
